@@ -126,6 +126,11 @@ impl HotReloadingData {
         self.deps.insert_asset(key, new_deps, typ);
     }
 
+    pub fn add_owned_asset(&mut self, infos: AssetReloadInfos) {
+        let AssetReloadInfos(key, new_deps, _) = infos;
+        self.deps.insert_owned_asset(key, new_deps);
+    }
+
     pub fn remove_asset(&mut self, key: OwnedKey) {
         self.deps.remove_asset(key);
     }
